@@ -51,7 +51,15 @@ def trace(name):
 
 
 def xs(rng, n, pat=None):
-    pat = pat if pat is not None else rng.integers(0, 5)
+    pat = pat if pat is not None else rng.integers(0, 7)
+    if pat == 6:
+        # large origin, small increments (time stamps, byte offsets): relative x span 1e-5 .. 1e-11
+        off = float(int(10.0 ** rng.uniform(6, 12)))
+        return off + np.cumsum(rng.integers(1, 5, n)).astype(float), 6
+    if pat == 5:
+        # small units (seconds, GiB fractions): gaps of 1e-3 .. 1e-7
+        x = np.cumsum(rng.uniform(0.05, 3.0, n)) * 10.0 ** -int(rng.integers(2, 7))
+        return x, 5
     if pat == 0:
         x = np.arange(n, dtype=float) + float(rng.integers(0, 4))
     elif pat == 1:
